@@ -165,6 +165,12 @@ TotalsField(d, a) == IF d.declared # Ev!NaN /\ a.declared # ToString(d.declared)
                      ELSE IF a.received # ToString(d.received) THEN "received"
                      ELSE IF a.accepted \notin {ToString(n) : n \in d.accepted_lo..d.accepted_hi} THEN "accepted" ELSE ""
 TF(b) == IF b THEN "true" ELSE "false"
+HasLine(ack, id) == \E i \in 1..Len(ack) : ack[i].id = id
+(* the reported error next to which an acknowledgement breaks off *)
+BreakCause(h, rep, ack) ==
+  LET K == IF HasLine(ack, "GE") THEN {"ISA", "IEA"} ELSE {"ST", "SE"}
+      q == SelectSeq(rep, LAMBDA e : e.op = "ele_error" /\ e.si >= 1 /\ e.si <= Len(h) /\ h[e.si].k \in K)
+  IN IF q # <<>> THEN Ctx(h, q[1]) ELSE IF rep = <<>> THEN "none" ELSE "other"
 HowNamed(a, d) == IF Len(a) < Len(d) THEN "fewer" ELSE IF Len(a) > Len(d) THEN "more" ELSE "differs"
 (* the first clause in `order` that has a finding *)
 RECURSIVE FirstOf(_, _)
@@ -188,8 +194,7 @@ C05Fails(h, rep, ack, verdict, ver, truncated) ==
       unclosedG == IF \E i \in GI : ~D[i].closed THEN "some_group_unclosed" ELSE ""
       unclosedS == IF \E p \in SI : ~D[p[1]].sets[p[2]].closed THEN "some_set_unclosed" ELSE ""
       tr == IF truncated THEN "truncated" ELSE "complete"
-      tcause == LET q == SelectSeq(rep, LAMBDA e : e.op = "ele_error" /\ e.si >= 1 /\ e.si <= Len(h) /\ h[e.si].k \in {"ST", "SE"}) IN
-                IF q # <<>> THEN Ctx(h, q[1]) ELSE IF rep = <<>> THEN "none" ELSE "other"
+      tcause == BreakCause(h, rep, ack)
       Tr(S) == {F(f.c, "truncated", tcause, "") : f \in S}
       cVerdict == IF verdict # (rep = <<>>) THEN {F("verdict_vs_tree", TF(verdict), IF rep = <<>> THEN "none" ELSE Ctx(h, rep[1]), "")} ELSE {}
       cAddr == IF written /\ ~Addressed(h, ack) THEN {F("addressed_to_sender", "", "", "")} ELSE {}
@@ -228,10 +233,10 @@ Schema(id, ver) ==
     [] id = "AK1" -> IF v5 THEN <<2, 3, 1>> ELSE <<2, 2, 1>> [] id = "AK2" -> IF v5 THEN <<2, 3, 1>> ELSE <<2, 2, 1>>
     [] id \in {"AK3", "IK3"} -> <<2, 4, 1>> [] id \in {"AK4", "IK4"} -> <<3, 4, IF v5 THEN 3 ELSE 2>>
     [] id \in {"AK5", "IK5"} -> <<1, 6, 1>> [] id = "AK9" -> <<4, 9, 1>> [] id \in {"SE", "GE", "IEA"} -> <<2, 2, 1>>
-    [] id = "TA1" -> <<4, 5, 1>> [] OTHER -> <<0, 0, 0>>
+    [] id = "TA1" -> <<4, 5, 1>> [] id = "CTX" -> <<1, 6, 9>> [] OTHER -> <<0, 0, 0>>
 LineOk(l, ver) == LET s == Schema(l.id, ver) IN
                   /\ s[3] # 0 /\ Len(l.e) >= s[1] /\ Len(l.e) <= s[2]
-                  /\ \A i \in 1..Len(l.e) : Len(l.e[i]) <= (IF i = 1 THEN s[3] ELSE 1)
+                  /\ \A i \in 1..Len(l.e) : Len(l.e[i]) <= (IF i = 1 \/ l.id = "CTX" THEN s[3] ELSE 1)
 BadLines(ack, ver) == {i \in 1..Len(ack) : ~LineOk(ack[i], ver)}
 EnvClean(ack) ==    \* which envelope clauses fail, by independent recount of the acknowledgement itself
   LET env == EnvOf(ack)
@@ -248,7 +253,9 @@ EchoPos == ({"ISA"} \X {5, 6, 7, 8, 11, 15}) \cup ({"GS"} \X {2, 3, 6, 7}) \cup 
            \cup ({"AK3", "IK3"} \X {1, 3}) \cup ({"AK4", "IK4"} \X {2, 4}) \cup ({"TA1"} \X {1, 2, 3}) \cup ({"AK9"} \X {2}) \cup ({"GE"} \X {2})
 AckMapFor(ver) == IF ver = "4010" THEN "997" ELSE "999"
 Truncated(ack) == ack # <<>> /\ "complete" \in EnvClean(ack)
-KnownLine(id) == id \in {"ISA", "GS", "ST", "AK1", "AK2", "AK3", "AK4", "AK5", "AK9", "IK3", "IK4", "IK5", "SE", "GE", "TA1", "IEA"}
+(* broke off inside the AK1..AK9 blocks (after GE everything about groups and sets has been said) *)
+TruncatedInBlocks(ack) == Truncated(ack) /\ ~HasLine(ack, "GE")
+KnownLine(id) == id \in {"ISA", "GS", "ST", "AK1", "AK2", "AK3", "AK4", "AK5", "AK9", "IK3", "IK4", "IK5", "CTX", "SE", "GE", "TA1", "IEA"}
 (* an echoed value that contains one of the acknowledgement's own delimiters *)
 EchoClass(rep) == LET cs == {ValClass(rep[i].val) : i \in {j \in 1..Len(rep) : rep[j].op = "ele_error"}} IN
                   IF "TERM" \in cs THEN "TERM" ELSE IF "ELE" \in cs THEN "ELE" ELSE IF "SUB" \in cs THEN "SUB" ELSE IF "REP" \in cs THEN "REP" ELSE "none"
@@ -257,8 +264,7 @@ C06Fails(ack, ver, reread, reval, h, rep) ==
   LET ec == EnvClean(ack)
       bl == BadLines(ack, ver)
       trunc == "complete" \in ec
-      cause == LET q == SelectSeq(rep, LAMBDA e : e.op = "ele_error" /\ e.si >= 1 /\ e.si <= Len(h) /\ h[e.si].k \in {"ST", "SE"}) IN
-               IF q # <<>> THEN Ctx(h, q[1]) ELSE IF rep = <<>> THEN "none" ELSE "other"
+      cause == BreakCause(h, rep, ack)
       echo == EchoClass(rep)
   IN (IF trunc THEN {F("complete", cause, "", "")} ELSE {F(c, echo, "", "") : c \in ec})
      \cup (IF ~trunc /\ bl # {} THEN
